@@ -2,6 +2,8 @@
 C10 — property theorems: bounds lemmas on the index-arithmetic models of `Model/C10.lean`
 (helper lemmas live in `Proofs/C10*.lean`).
 -/
+import Mahotas.Proofs.C10MiscLbp
+import Mahotas.Proofs.C10MiscDist
 import Mahotas.Proofs.C10Odometer
 import Mahotas.Proofs.C10Interp
 import Mahotas.Proofs.C10IWavelet
@@ -9,6 +11,7 @@ import Mahotas.Proofs.C10Graham
 import Mahotas.Proofs.C10Thin
 import Mahotas.Proofs.C10Cw
 import Mahotas.Proofs.C10Line
+import Mahotas.Proofs.C10Surf
 open Mahotas Mahotas.C10
 
 /-! ## general index arithmetic -/
@@ -582,3 +585,319 @@ theorem C10_cwatershed_table_ok (shape : List Nat) (offs : List (List Int))
 
 example : (cwAccesses [2, 3] [[0, 1], [1, 0], [-1, -1]]).length = 9 ∧
     allOk (cwAccesses [2, 3] [[0, 1], [1, 0], [-1, -1]]) = true := by decide
+
+/-! ## Round 3 — histogram, lbp map, bbox fast path, relabel/remove_regions, distance_multi -/
+
+/-- **B7, histogram.** `compute_histogram` executes `++histogram[*data]` for the `N` elements of the array. Let the
+dtype be one the type switch of `py_histogram` admits (`histTypeRange ty = some (lo, hi)`: NPY_UBYTE, NPY_USHORT,
+NPY_UINT, NPY_ULONG, NPY_ULONGLONG — everything else is rejected with `RuntimeError` before any access), let the
+elements be values of that dtype, and let the histogram have the `int(img.max()) + 1` bins `fullhistogram` allocates
+(`histWrapperSize`; an empty array never reaches the kernel because `max()` raises). Then, for every array length
+and every content: every `data[i]` is in `[0, N)` and every bin index `histogram[data[i]]` is in `[0, max+1)`. -/
+theorem C10_histogram_in_bounds (ty : Nat) (lo hi : Int) (vals : List Int) (s : Int)
+    (hty : C10Misc.histTypeRange ty = some (lo, hi)) (hv : ∀ v ∈ vals, lo ≤ v ∧ v ≤ hi)
+    (hs : C10Misc.histWrapperSize vals = some s) :
+    ∀ a ∈ C10Misc.histAccesses vals s, 0 ≤ a.i ∧ a.i < a.size := by
+  have hlo := C10Misc.histTypeRange_lo ty lo hi hty
+  exact C10Misc.histAccesses_ok vals s (fun v h => by have := hv v h; omega)
+    (C10Misc.histWrapperSize_gt vals s hs)
+
+/-- **B7, histogram: the unsigned guard is needed.** (i) Every dtype the switch admits has no negative values.
+(ii) If the array could hold a negative value `v` (a signed dtype let through), the access `histogram[v]` is out of
+bounds whatever the number of bins — in particular for the wrapper's `max()+1`. (iii) A value `≥` the number of
+bins is out of bounds as well (a histogram shorter than `max()+1`, possible only in a direct native call). -/
+theorem C10_histogram_needs_unsigned :
+    (∀ ty lo hi, C10Misc.histTypeRange ty = some (lo, hi) → lo = 0) ∧
+    (∀ (vals : List Int) (s v : Int), v ∈ vals → (v < 0 ∨ s ≤ v) →
+      ¬ ∀ a ∈ C10Misc.histAccesses vals s, 0 ≤ a.i ∧ a.i < a.size) :=
+  ⟨C10Misc.histTypeRange_lo, fun vals s v hv hb => C10Misc.histAccesses_bad vals s v hv hb⟩
+
+/-! non-vacuity: an unsigned image; the same call with a negative element (bins = max()+1 = 4) leaves the buffer -/
+example : C10Misc.histWrapperSize [3, 0, 2, 3] = some 4 ∧ (C10Misc.histAccesses [3, 0, 2, 3] 4).length = 8 ∧
+    C10Misc.allOk (C10Misc.histAccesses [3, 0, 2, 3] 4) = true ∧
+    C10Misc.histWrapperSize [3, -1, 2] = some 4 ∧ C10Misc.allOk (C10Misc.histAccesses [3, -1, 2] 4) = false ∧
+    C10Misc.histTypeRange 5 = none ∧ C10Misc.histTypeRange 6 = some (0, 4294967295) := by decide
+
+/-- **lbp map.** `_lbp.map(codes, points)` for `0 ≤ points ≤ 32` (no guard in the entry point; `lbp.py` builds
+`np.arange(2**points, dtype=uint32)`, so `points ≤ 32` is what the uint32 code type can hold) and codes of `points`
+bits (`codes = Σ bit_k·2^k`, `k < points`): every `data[i]` is inside the array; the shift count `points-1` of every
+`roll_right` is in `[0, 32)`, the width of `npy_uint32`; the `i != points` loop leaves through its test; and the
+mapped code — the index into the `2^points`-entry pivot table (`final[pivots[:len(final)]]` with
+`len(final) = max code + 1`) — is `< 2^points`. Moreover for `points ≥ 1` the uint32 arithmetic never truncates:
+`roll_right` and `map` agree with the unbounded model of C19 (`C19.rollRight`, `C19.lbpMap`, the orbit minimum). -/
+theorem C10_lbp_map_in_bounds (P : Nat) (hP : P ≤ 32) :
+    (∀ codes : List Nat, (∀ v ∈ codes, v < 2 ^ P) →
+      ∀ a ∈ C10Misc.lbpAccesses (P : Int) codes, 0 ≤ a.i ∧ a.i < a.size) ∧
+    C10Misc.lbpDone (P : Int) = true ∧
+    (∀ v, v < 2 ^ P → C10Misc.lbpMap32 (P : Int) v < 2 ^ P) ∧
+    (1 ≤ P → ∀ v, v < 2 ^ P → C10Misc.rollRight32 (P : Int) v = C19.rollRight P v ∧
+      C10Misc.lbpMap32 (P : Int) v = C19.lbpMap P v) :=
+  ⟨fun codes hc => C10Misc.lbpAccesses_ok P hP codes hc, by simp [C10Misc.lbpDone],
+    fun v hv => C10Misc.lbpMap32_lt P v hP hv,
+    fun h1 v hv => ⟨C10Misc.rollRight32_eq P v h1 hP hv, C10Misc.lbpMap32_eq P v h1 hP hv⟩⟩
+
+/-! non-vacuity: 4-bit codes; `points = 33` shifts by 32; a 5-bit code under `points = 2` maps outside the table -/
+example : (C10Misc.lbpAccesses 4 [6, 9, 15]).length = 21 ∧ C10Misc.allOk (C10Misc.lbpAccesses 4 [6, 9, 15]) = true ∧
+    [6, 9, 15].map (C10Misc.lbpMap32 4) = [3, 3, 15] ∧
+    C10Misc.allOk (C10Misc.lbpAccesses 33 [1]) = false ∧ C10Misc.lbpMap32 2 16 = 4 ∧
+    C10Misc.allOk (C10Misc.lbpAccesses 2 [16]) = false ∧ C10Misc.lbpDone (-1) = false := by decide
+
+/-- **B7, bbox.** Fast path (`carray2_bbox`, C-contiguous 2-D array of `N0 × N1` elements, any `N0, N1 ≥ 0`, ANY
+content — `px` is an arbitrary predicate on pointer offsets): with `extrema = [N0, 0, N1, 0]` as `py_bbox` initialises
+it, every `*array` is read at a pointer offset in `[0, N0·N1)` with the column `x` in `[0, N1)` — including after the
+skip-ahead `step = extrema[3]-x-1; x += step; array += step`, because `extrema[3]` stays in `[0, N1]`, so the row loop
+ends with the pointer exactly at the start of the next row —; the `extrema[0..3]` accesses are inside the `2·nd = 4`
+entries; both loops leave through their tests; and the returned box satisfies `0 ≤ min_0, max_0 ≤ N0`,
+`0 ≤ min_1, max_1 ≤ N1` (so slicing with it stays inside the array). Generic path (`bbox`, any rank, shape, content):
+`where[j]`, `extrema[2j]`, `extrema[2j+1]`, `j < nd`, are inside `nd` resp. `2·nd` entries. -/
+theorem C10_bbox_in_bounds (px : Int → Bool) (n0 n1 : Nat) :
+    (∀ a ∈ (C10Misc.bboxFast px n0 n1).1, 0 ≤ a.i ∧ a.i < a.size) ∧ (C10Misc.bboxFast px n0 n1).2.2 = true ∧
+    (0 ≤ (C10Misc.bboxFast px n0 n1).2.1.e0 ∧ (C10Misc.bboxFast px n0 n1).2.1.e0 ≤ n0 ∧
+     0 ≤ (C10Misc.bboxFast px n0 n1).2.1.e1 ∧ (C10Misc.bboxFast px n0 n1).2.1.e1 ≤ n0 ∧
+     0 ≤ (C10Misc.bboxFast px n0 n1).2.1.e2 ∧ (C10Misc.bboxFast px n0 n1).2.1.e2 ≤ n1 ∧
+     0 ≤ (C10Misc.bboxFast px n0 n1).2.1.e3 ∧ (C10Misc.bboxFast px n0 n1).2.1.e3 ≤ n1) ∧
+    ∀ (shape : List Nat) (img : List Bool), ∀ a ∈ (C10Misc.bboxGen shape img).1, 0 ≤ a.i ∧ a.i < a.size :=
+  ⟨(C10Misc.bboxFast_ok px n0 n1).1, (C10Misc.bboxFast_ok px n0 n1).2.1, (C10Misc.bboxFast_ok px n0 n1).2.2,
+    fun shape img => C10Misc.bboxGen_ok shape img⟩
+
+/-! non-vacuity: a 3x4 image (skip-ahead taken in row 1); an initial `extrema[3] = 6 > N1` sends the pointer out -/
+example : (C10Misc.bboxFast (fun k => k == 2 || k == 4 || k == 9) 3 4).2.1 = ⟨0, 3, 0, 3⟩ ∧
+    (C10Misc.bboxFast (fun k => k == 2 || k == 4 || k == 9) 3 4).1.length = 30 ∧
+    C10Misc.allOk (C10Misc.bboxFast (fun k => k == 2 || k == 4 || k == 9) 3 4).1 = true ∧
+    C10Misc.allOk (C10Misc.bboxFast (fun k => k == 2 || k == 4 || k == 9) 3 4 6).1 = false ∧
+    (C10Misc.bboxGen [2, 3] [false, false, true, false, true, false]).2 = [0, 2, 1, 3] := by decide
+
+/-- **remove_regions, the search.** `std::lower_bound` on the window `[first, first+len)` of a buffer of `size`
+elements, for ARBITRARY outcomes of the comparisons `*middle < val` (the oracle `lt`; the array need not be sorted):
+every `*middle` is inside the window, hence inside the buffer; the loop ends (`len` at least halves); the returned
+index is in `[first, first+len]`. -/
+theorem C10_lower_bound_in_bounds (lt : Int → Bool) (size : Int) (f : Nat) (first len : Int)
+    (h0 : 0 ≤ first) (h1 : 0 ≤ len) (h2 : first + len ≤ size) (hf : len < f) :
+    (∀ a ∈ (C10Misc.lowerBound lt size f first len).1, 0 ≤ a.i ∧ a.i < a.size) ∧
+    first ≤ (C10Misc.lowerBound lt size f first len).2.1 ∧
+    (C10Misc.lowerBound lt size f first len).2.1 ≤ first + len ∧
+    (C10Misc.lowerBound lt size f first len).2.2 = true :=
+  C10Misc.lowerBound_spec lt size f first len h0 h1 h2 hf
+
+/-- **remove_regions.** For every `labeled` and every `regions` array (any lengths incl. 0, any content, sorted or
+not): every `data[i]` (read, and the write `data[i] = 0`), every `*middle` of `std::lower_bound` and the final `*i` of
+`std::binary_search` (read only when `i != last`) is inside its buffer; all loops end; the result has the length of
+the input. And when `regions` is sorted (what `np.unique` in `labeled.remove_regions` guarantees), the search
+answers membership: a label is zeroed iff it is non-zero and occurs in `regions`. -/
+theorem C10_remove_regions_in_bounds (regions labeled : List Int) :
+    (∀ a ∈ (C10Misc.removeRegions regions labeled).1, 0 ≤ a.i ∧ a.i < a.size) ∧
+    (C10Misc.removeRegions regions labeled).2.2 = true ∧
+    (C10Misc.removeRegions regions labeled).2.1.length = labeled.length ∧
+    ((∀ i j : Nat, i ≤ j → j < regions.length → regions.getD i 0 ≤ regions.getD j 0) →
+      ∀ val, (C10Misc.binarySearch regions val).2.1 = true ↔ val ∈ regions) :=
+  ⟨(C10Misc.removeRegions_ok regions labeled).1, (C10Misc.removeRegions_ok regions labeled).2.1,
+    (C10Misc.removeRegions_ok regions labeled).2.2, fun hs val => C10Misc.binarySearch_sorted regions val hs⟩
+
+example : (C10Misc.removeRegions [2, 5, 7] [0, 5, 3, 7, 9]).2.1 = [0, 0, 3, 0, 9] ∧
+    (C10Misc.removeRegions [2, 5, 7] [0, 5, 3, 7, 9]).1.length = 18 ∧
+    (C10Misc.removeRegions [] [4]).1.length = 1 ∧ (C10Misc.binarySearch [2, 5, 7] 9).2.1 = false := by decide
+
+/-- **relabel.** For every `labeled` array: `data[i]` (read and write) is inside the array; the result has the same
+length; the returned number of objects `n` satisfies `0 ≤ n ≤ N`; and every new label is in `[0, n]` — so any table
+with `n+1` entries indexed by the relabelled array (`labeled_sum`, `bbox`, `center_of_mass` with
+`max()+1` entries) is indexed in range. -/
+theorem C10_relabel_in_bounds (labeled : List Int) :
+    (∀ a ∈ (C10Misc.relabel labeled).1, 0 ≤ a.i ∧ a.i < a.size) ∧
+    (C10Misc.relabel labeled).2.1.length = labeled.length ∧
+    0 ≤ (C10Misc.relabel labeled).2.2 ∧ (C10Misc.relabel labeled).2.2 ≤ labeled.length ∧
+    ∀ w ∈ (C10Misc.relabel labeled).2.1, 0 ≤ w ∧ w ≤ (C10Misc.relabel labeled).2.2 :=
+  C10Misc.relabel_ok labeled
+
+example : (C10Misc.relabel [7, 0, -2, 7, 3]).2 = ([1, 0, 2, 1, 3], 3) ∧
+    (C10Misc.relabel [7, 0, -2, 7, 3]).1.length = 10 := by decide
+
+/-- **B6, distance_multi: `validposition` precedes every access.** For EVERY shape (any rank, axes of length 0
+included), every content of `array` and `res`, every list of deltas (`Bcs`: any number, any rank, any integers — so
+also what `neighbours_delta` yields for a structuring element of another rank, where the C++ adds uninitialised
+components) and every step budget of the queue loop: every position dereferenced by `distance_multi` — `*aiter`,
+`*riter`, `array.at(next)`, `res.data(next)` in both phases, and the `res.at(next)` of a popped queue entry, which is
+NOT itself preceded by `validposition` but was validated before it was pushed — is inside the array. The
+transliterated `validposition` (rank test, then `pos[i] < 0 || pos[i] >= dim(i)` per axis) is exactly `inside`. By
+`C10_ravel_lt` / `C10_line_address`-style arguments a position inside the box is an element for any strides. -/
+theorem C10_distance_multi_in_bounds (shape : List Nat) (img : List Bool) (res : List Int)
+    (deltas : List (List Int)) (fuel : Nat) :
+    (∀ a ∈ (C10Misc.dmRun true shape img res deltas fuel).1, inside a.shape a.pos = true) ∧
+    ∀ pos, C10Misc.validPosition shape pos = true ↔ inside shape pos = true :=
+  ⟨C10Misc.dmRun_ok shape img res deltas fuel,
+    fun pos => ⟨C10Misc.validPosition_inside shape pos, C10Misc.inside_validPosition shape pos⟩⟩
+
+/-- **distance_multi: the native guards do not suffice.** `neighbours_delta` starts with
+`numpy::position accumulated = rs[0];` unconditionally: its vector accesses are in range iff the structuring element
+has at least one set element other than its centre. `py_distance_multi` checks types and `same_shape(array, res)`
+only (`nativeGuards_morph_distance_multi`): an all-False, centre-only or 0-d `Bc` reads `rs[0]` of an empty vector
+(observed: SIGSEGV / ASan SEGV in `neighbours_delta`). A rank mismatch between `Bc` and `array` is not checked
+either, but is harmless for memory by `C10_distance_multi_in_bounds`. -/
+theorem C10_distance_multi_needs_neighbour (rs : List (List Int)) :
+    (∀ a ∈ (C10Misc.neighboursDelta rs).1, 0 ≤ a.i ∧ a.i < a.size) ↔ rs ≠ [] :=
+  C10Misc.neighboursDelta_ok_iff rs
+
+/-! non-vacuity: a 2x3 image with the cross; without `validposition` positions leave the array; centre-only `Bc` -/
+example : C10Misc.neighbours [3, 3] [false, true, false, true, true, true, false, true, false] =
+      [[-1, 0], [0, -1], [0, 1], [1, 0]] ∧
+    (C10Misc.neighboursDelta [[-1, 0], [0, -1], [0, 1], [1, 0]]).2 = [[-1, 0], [1, -1], [0, 2], [1, -1]] ∧
+    (C10Misc.dmRun true [2, 3] [true, true, false, true, true, true] [99, 99, 99, 99, 99, 99]
+      [[-1, 0], [1, -1], [0, 2], [1, -1]] 50).2 = ([4, 1, 0, 5, 2, 1], true) ∧
+    ((C10Misc.dmRun false [2, 3] [true, true, false, true, true, true] [99, 99, 99, 99, 99, 99]
+      [[-1, 0], [1, -1], [0, 2], [1, -1]] 50).1.all C10Misc.PAcc.ok) = false ∧
+    C10Misc.neighbours [3, 3] [false, false, false, false, true, false, false, false, false] = [] ∧
+    C10Misc.allOk (C10Misc.neighboursDelta []).1 = false := by decide
+/-! ## Round 3 — B9 SURF -/
+
+section SurfB9
+open Mahotas.C10Surf
+
+/-- **B9, `sum_rect` (as repaired by 6faa5ae).** For ALL integers `y0, x0, y1, x1` — every window, also one that ends
+before the image or begins beyond it — and every image size: an empty image (`N0 ≤ 0` or `N1 ≤ 0`) performs NO access
+(`return 0.`), and for a non-empty image the four reads `integral.at(y0',x0')`, `at(y0',x1')`, `at(y1',x0')`, `at(y1',x1')`
+behind the two-sided clamps `v' = min(max(v-1, 0), N-1)` of all four corners are inside the `N0 x N1` integral image. No
+precondition is left. -/
+theorem C10_surf_sum_rect_in_bounds (n0 n1 y0 x0 y1 x1 : Int) :
+    sAllOk (sumRectAccesses n0 n1 y0 x0 y1 x1) = true ∧
+    (sumRectAccesses n0 n1 y0 x0 y1 x1).length = if n0 ≤ 0 ∨ n1 ≤ 0 then 0 else 8 :=
+  ⟨(sAllOk_iff _).2 (sumRect_ok n0 n1 y0 x0 y1 x1), sumRect_length n0 n1 y0 x0 y1 x1⟩
+
+/-! non-vacuity: windows inside, beyond, before the image (the witnesses of the repaired defect) and an empty image -/
+example : sAllOk (sumRectAccesses 40 40 (-5) 3 7 50) = true ∧ (sumRectAccesses 40 40 (-5) 3 7 50).length = 8 ∧
+    sAllOk (sumRectAccesses 40 40 100 0 200 5) = true ∧ (sumRectAccesses 40 40 100 0 200 5).map (·.i) = [39, 0, 39, 4, 39, 0, 39, 4] ∧
+    sAllOk (sumRectAccesses 40 40 (-5) 0 0 5) = true ∧ sumRectAccesses 0 4 0 0 1 1 = [] := by decide
+
+/-- **B9, `sum_rect` as the entry point `_surf.sum_rect` runs it** (four arbitrary C `int`s; the decrement `v-1` wraps at
+`INT_MIN` to `INT_MAX` as compiled with `-fno-strict-overflow`, modelled by `wrap32`): whatever the wrapped values are, the
+two-sided clamps keep all reads inside a non-empty image, and an empty one is not read. -/
+theorem C10_surf_sum_rect_entry_in_bounds (n0 n1 y0 x0 y1 x1 : Int) :
+    sAllOk (sumRectEntry n0 n1 y0 x0 y1 x1) = true :=
+  (sAllOk_iff _).2 (sumRectEntry_ok n0 n1 y0 x0 y1 x1)
+
+example : sAllOk (sumRectEntry 5 5 (-2147483648) 0 3 3) = true ∧ (sumRectEntry 5 5 (-2147483648) 0 3 3).length = 8 ∧
+    sAllOk (sumRectEntry 5 5 2 2 4 4) = true ∧ sumRectEntry 5 0 2 2 4 4 = [] := by decide
+
+/-- **B9, `csum_rect`.** For all integers: `csum_rect(integral, y, x, dy, dx, h, w)` (`y0 = y+dy-h/2`, `x0 = x+dx-w/2` with C
+division, `y1 = y0+h`, `x1 = x0+w`) reads inside the image (nothing for an empty image). -/
+theorem C10_surf_csum_rect_in_bounds (n0 n1 y x dy dx h w : Int) :
+    sAllOk (csumRectAccesses n0 n1 y x dy dx h w) = true :=
+  (sAllOk_iff _).2 (csumRect_ok n0 n1 y x dy dx h w)
+
+example : sAllOk (csumRectAccesses 9 9 4 4 (-2) 2 3 3) = true ∧ sAllOk (csumRectAccesses 9 9 0 4 (-2) 2 1 3) = true ∧
+    (csumRectAccesses 9 9 0 4 (-2) 2 1 3).length = 8 := by decide
+
+/-- **B9, `build_pyramid`.** For every image size `N0, N1` (any integers, also smaller than the filters), every number of
+octaves and intervals and every `initial_step_size ≥ 1` (the guard of `check_pyramid_parameters`, fix d1a663a): every
+access of the fill loops — `pyramid[o]` with `o < nr_octaves`; the 32 reads of the eight `csum_rect` windows (Dxx, Dyy, Dxy
+lobes) at every sample `(y, x)`, `y = border, border+step, … < N0-border`; the write
+`pyramid[o].at(i, y/step_size, x/step_size)` into the array of shape `(nr_intervals, N0/step_size, N1/step_size)` — is in
+bounds, and every `y += step_size` loop terminates (`step_size ≥ 1`). The `csum_rect` windows may stick out of the image:
+the two-sided clamps of `sum_rect` take care of that (`C10_surf_sum_rect_in_bounds`). The write needs `border ≥ step`
+(`y < N0 - border` gives `y/step < N0/step` although `N0/step` rounds down). Arithmetic is over ℤ here; that the C `int`s
+do not overflow is `C10_surf_pyramid_no_int_overflow`. -/
+theorem C10_surf_pyramid_in_bounds (n0 n1 noct nint init : Int) (hi : 1 ≤ init) :
+    sAllOk (pyramidAccesses n0 n1 noct nint init) = true ∧ pyramidDone noct init = true :=
+  ⟨(sAllOk_iff _).2 (pyramidAccesses_ok n0 n1 noct nint init hi), pyramidDone_ok noct init hi⟩
+
+example : (pyramidAccesses 20 21 1 1 1).length = 1341 ∧ sAllOk (pyramidAccesses 20 21 1 1 1) = true ∧
+    pyramidDone 1 0 = false := by decide +kernel
+
+/-- **B9, `build_pyramid`: the guard and the allocation.** When `check_pyramid_parameters` accepts (`0 < nr_octaves ≤ 30`,
+`nr_intervals > 0`, `initial_step_size > 0`, `max_step*max_border < INT_MAX`) and the image has `N0, N1 ≥ 0`: all accesses are in
+bounds, the loops terminate, and `pyramid[o]` is allocated with shape `(nr_intervals ≥ 1, N0/step ≥ 0, N1/step ≥ 0)` (a plane
+may be empty when the image is smaller than the step: then nothing is written to it). -/
+theorem C10_surf_pyramid_guarded (n0 n1 noct nint init : Int) (o : Nat) (h0 : 0 ≤ n0) (h1 : 0 ≤ n1)
+    (hg : checkPyramidParameters noct nint init = true) :
+    sAllOk (pyramidAccesses n0 n1 noct nint init) = true ∧ pyramidDone noct init = true ∧
+    1 ≤ (pyramidDims n0 n1 nint init o).1 ∧ 0 ≤ (pyramidDims n0 n1 nint init o).2.1 ∧
+    0 ≤ (pyramidDims n0 n1 nint init o).2.2 := by
+  have hg' := hg
+  simp only [checkPyramidParameters, Bool.and_eq_true, decide_eq_true_eq] at hg'
+  obtain ⟨⟨⟨⟨_, _⟩, hn⟩, hin⟩, _⟩ := hg'
+  have hs : 1 ≤ stepSize init o := by unfold stepSize; have := pow2_pos o; nlinarith
+  refine ⟨(C10_surf_pyramid_in_bounds n0 n1 noct nint init (by omega)).1, pyramidDone_ok noct init (by omega), ?_, ?_, ?_⟩
+  · simp only [pyramidDims]; omega
+  · simp only [pyramidDims]; rw [Int.tdiv_eq_ediv_of_nonneg h0]; exact Int.ediv_nonneg h0 (by omega)
+  · simp only [pyramidDims]; rw [Int.tdiv_eq_ediv_of_nonneg h1]; exact Int.ediv_nonneg h1 (by omega)
+
+example : checkPyramidParameters 4 6 1 = true ∧ checkPyramidParameters 31 6 1 = false ∧ checkPyramidParameters 4 0 1 = false ∧
+    checkPyramidParameters 4 6 0 = false ∧ checkPyramidParameters 30 6 1 = false ∧ checkPyramidParameters 1 700000000 1 = true := by
+  decide +kernel
+
+/-- **B9, `build_pyramid`: no `int` overflow.** Under `check_pyramid_parameters`, for every octave `o < nr_octaves` and interval
+`0 ≤ i < nr_intervals`, the C `int`s computed from the parameters alone — `step_size = initial_step_size*2^o`,
+`get_border_size(o, nr_intervals)`, `border_size = get_border_size*step_size`, `lobe_size = 2^(o+1)*(i+1)+1`,
+`lobe_offset = lobe_size/2+1` — lie in `[1, INT_MAX]`: the computation over ℤ of `C10_surf_pyramid_in_bounds` is the
+computation of the machine. (The window sizes `3*lobe_size`, `2*lobe_size-1` are evaluated only inside the `y` loop, where
+`3*lobe_size ≤ 2*border < N0`; that last step is not formalised: see the report.) -/
+theorem C10_surf_pyramid_no_int_overflow (noct nint init : Int) (o : Nat) (i : Int)
+    (hg : checkPyramidParameters noct nint init = true) (ho : (o : Int) < noct) (hi : 0 ≤ i ∧ i < nint) :
+    ∀ v ∈ pyramidInts nint init o i, 1 ≤ v ∧ v ≤ 2147483647 :=
+  pyramidInts_range noct nint init o i hg ho hi
+
+example : pyramidInts 6 1 3 5 = [8, 170, 1360, 97, 49] := by decide
+
+/-- **B9, `get_interest_points`.** For every plane count `nr_intervals`, every plane size `nr x nc` (any integers) and every
+border `get_border_size ≥ 0`: all reads of one octave — the scan `for (i = 1; i < nr_intervals-1; i += 3) for (r = border+1;
+r < nr-border-1; r += 3) for (c …)`, the block `ii < min(i+3, nr_intervals-1)`, `rr < min(r+3, nr-border-1)`, `cc < …`, and, for
+EVERY element of the block as candidate maximum (the float comparisons are not modelled: a superset of any run),
+`is_maximum_in_region` (27 neighbours `(i-1..i+1, r-1..r+1, c-1..c+1)` behind `i <= 0 || i+1 >= nr_intervals`) and
+`interpolate_point` (27 reads at offsets in `{-1,0,1}³`) — are inside the `nr_intervals x nr x nc` array. The border the code
+uses is non-negative (`≥ 8`) whenever `nr_intervals ≥ 1`. -/
+theorem C10_surf_interest_points_in_bounds (nint nr nc bs : Int) (hbs : 0 ≤ bs) :
+    sAllOk (ipScanAccesses nint nr nc bs) = true ∧ ∀ o : Nat, 1 ≤ nint → 8 ≤ borderSize o nint :=
+  ⟨(sAllOk_iff _).2 (ipScan_ok nint nr nc bs hbs), fun o h => borderSize_ge o nint h⟩
+
+example : (ipScanAccesses 3 3 3 0).length = 171 ∧ sAllOk (ipScanAccesses 3 3 3 0) = true ∧
+    sAllOk (ipScanAccesses 3 3 3 (-1)) = false := by decide +kernel
+
+/-- **B9, gradient samples (`haar_x`, `haar_y`).** For all integers `y, x, w` and every image size: the 16 reads of
+`haar_x(integral, y, x, w)` and `haar_y(integral, y, x, w)` are inside the image — also for a sample position in row or
+column 0 (`y = 0`: the top window ends before the image; since 6faa5ae it is empty instead of reading `integral.at(-1, ·)`). -/
+theorem C10_surf_haar_in_bounds (n0 n1 y x w : Int) :
+    sAllOk (haarAccesses n0 n1 y x w) = true :=
+  (sAllOk_iff _).2 (haar_ok n0 n1 y x w)
+
+/-- **B9, descriptor / orientation sampling windows.** The sample positions of `compute_dominant_angle`
+(`round(scale*r + center.y)`, …) and `compute_surf_descriptor` (`int(p.y())`, `int(p.x())` of the rotated grid) and the window
+sizes (`(~1)&int(4*scale+.5)`, `int(2*scale+.5)`) are float-derived; here they are ARBITRARY integers — no hypothesis on
+positions, window or scale is needed any more: all reads of all samples are in bounds. (On the pinned clamps this needed
+`1 ≤ y ≤ N0`, `1 ≤ x ≤ N1`, which the border test of `compute_descriptors` does not ensure for scales below ~1.47:
+`C10_surf_descriptor_pinned_guard_insufficient`.) -/
+theorem C10_surf_descriptor_windows_in_bounds (n0 n1 : Int) (pts : List (Int × Int)) (w : Int) :
+    sAllOk (descWindowAccesses n0 n1 pts w) = true :=
+  (sAllOk_iff _).2 (descWindow_ok n0 n1 pts w)
+
+example : sAllOk (descWindowAccesses 9 9 [(1, 1), (9, 9), (4, 5), (0, 3), (3, 0), (-7, 40)] 4) = true ∧
+    (descWindowAccesses 9 9 [(1, 1), (9, 9), (4, 5)] 4).length = 96 ∧
+    sAllOk (haarAccesses 9 9 0 3 2) = true ∧ sAllOk (haarAccesses 9 9 3 0 0) = true ∧
+    sAllOk (haarPinnedAccesses 9 9 0 3 2) = false := by decide
+
+/-- **B9, the descriptor vector.** The 16 cells of `for (r = -10; r < 10; r += 5) for (c = -10; c < 10; c += 5)` write
+`des[count++]` four times each: exactly the indices `0 … 63` of `double des[64]`; `compute_dominant_angle` takes 109 samples
+(so `samples[0]` exists). -/
+theorem C10_surf_descriptor_index_in_bounds :
+    sAllOk descIndexAccesses = true ∧ descIndexAccesses.map (·.i) = (List.range 64).map Int.ofNat ∧ angleGrid.length = 109 := by
+  decide
+
+/-- **B9, the PINNED clamps of `sum_rect` (history; NOT the current code).** Before 6faa5ae the clamps were one-sided
+(`y0' = max(y0-1,0)`, `x0' = max(x0-1,0)`, `y1' = min(y1-1,N0-1)`, `x1' = min(x1-1,N1-1)`, no test for an empty image): the
+reads were inside the image IF AND ONLY IF `N0, N1 ≥ 1`, `y0 ≤ N0`, `x0 ≤ N1`, `y1 ≥ 1`, `x1 ≥ 1`. -/
+theorem C10_surf_sum_rect_pinned_in_bounds_iff (n0 n1 y0 x0 y1 x1 : Int) :
+    sAllOk (sumRectPinnedAccesses n0 n1 y0 x0 y1 x1) = true ↔
+      1 ≤ n0 ∧ 1 ≤ n1 ∧ y0 ≤ n0 ∧ x0 ≤ n1 ∧ 1 ≤ y1 ∧ 1 ≤ x1 := by
+  rw [sAllOk_iff]; exact sumRectPinned_ok_iff n0 n1 y0 x0 y1 x1
+
+/-- **B9, why the repair was needed (about the PINNED clamps; the current code is safe by
+`C10_surf_descriptor_windows_in_bounds`).** In exact rational arithmetic: a 40x40 image, interest point `(15, 15)` with
+`scale = 1` (what `surf.dense(f, 1)` passes) and rotation `sin = -20/29`, `cos = 21/29` (`sin² + cos² = 1`). The border test of
+`compute_descriptors` accepts (`border_size = 31/2 = 15 ≤ 15`, `15 + 15 < 40`), the grid point `(x, y) = (-10, -10)` is sampled
+at row `int(p.y) = 0`, column 14, window `int(2*1+.5) = 2`; over the pinned clamps `haar_y` read `integral.at(-1, ·)` (the defect
+repaired by 6faa5ae, witnesses `corpus/C10/surf_*.json`), over the current clamps the same sample is in bounds. -/
+theorem C10_surf_descriptor_pinned_guard_insufficient :
+    descGuard 40 40 15 15 1 = true ∧
+    ((-20 / 29 : Rat) * (-20 / 29) + (21 / 29) * (21 / 29) = 1) ∧
+    descSample 15 15 1 (-20 / 29) (21 / 29) (-10) (-10) = (0, 14) ∧ descWindow 1 = 2 ∧
+    sAllOk (haarPinnedAccesses 40 40 0 14 2) = false ∧ sAllOk (haarAccesses 40 40 0 14 2) = true := by
+  decide +kernel
+
+end SurfB9
